@@ -154,6 +154,32 @@ fn target_any() -> BoxedStrategy<Target> {
     .boxed()
 }
 
+/// one history in eight gets a crowd: 30-90 operations of mixed kinds started back to back at a
+/// generated position, so that dozens of acknowledgements are outstanding at once
+pub fn crowd(s: BoxedStrategy<Scenario>) -> BoxedStrategy<Scenario> {
+    (s, prop::bool::weighted(0.125), any::<u16>(), 30usize..90, any::<u8>())
+        .prop_map(|(mut s, on, pos, n, salt)| {
+            if on {
+                let at = ((pos as usize) * (s.events.len() + 1)) >> 16;
+                let burst: Vec<Ev> = (0..n)
+                    .map(|i| {
+                        let kind = match (i + salt as usize) % 5 {
+                            0 => OpKind::Ping,
+                            1 => OpKind::Pub1,
+                            2 => OpKind::Pub2,
+                            3 => OpKind::Sub((i % 4) as u8),
+                            _ => OpKind::Unsub((i % 3) as u8),
+                        };
+                        Ev::Start { h: ((i % 3) * 100) as u8, kind, settle: false, solo: false }
+                    })
+                    .collect();
+                s.events.splice(at..at, burst);
+            }
+            s
+        })
+        .boxed()
+}
+
 /// histories in which the broker sends no PUBLISH may run with tiny client-side limits
 fn no_inbound(s: BoxedStrategy<Scenario>) -> BoxedStrategy<Scenario> {
     (s, prologue_variant_no_inbound())
@@ -232,7 +258,7 @@ impl Property for C05 {
             1 => Just(Ev::ReenterRun),
         ]
         .boxed();
-        no_inbound(scenario(Just(None).boxed(), ev, 1..tier.pick(60, 200)))
+        crowd(no_inbound(scenario(Just(None).boxed(), ev, 1..tier.pick(60, 200))))
     }
 
     fn cases(tier: Tier) -> u32 {
@@ -772,7 +798,7 @@ impl Property for C10 {
             1 => Just(Ev::ReenterRun),
         ]
         .boxed();
-        no_inbound(scenario(rm_small(), ev, 1..tier.pick(60, 200)))
+        crowd(no_inbound(scenario(rm_small(), ev, 1..tier.pick(60, 200))))
     }
 
     fn cases(tier: Tier) -> u32 {
